@@ -161,6 +161,17 @@ Proof.
     repeat constructor; simpl; intuition discriminate.
 Qed.
 
+(* ... and so do antisymmetry and "== is equality of extents": same set, <= both ways, yet not == *)
+Lemma fc_order_laws_need_canonical_refuted :
+  fc_comparable c02 c20 /\ NoDup (fc_extent_i c02) /\ NoDup (fc_extent_i c20) /\
+  spec_eq (fc_extent_i c02) (fc_extent_i c20) = true /\
+  fc_le c02 c20 = COk true /\ fc_le c20 c02 = COk true /\ fc_eq c02 c20 = COk false /\
+  fc_ne c02 c20 = COk true.
+Proof.
+  repeat split; try (vm_compute; reflexivity);
+    repeat constructor; simpl; intuition discriminate.
+Qed.
+
 (* derived operators *)
 Lemma fc_ne_is_not_eq a b : fc_ne a b = cres_map negb (fc_eq a b).
 Proof. reflexivity. Qed.
